@@ -544,7 +544,14 @@ func runC01(c *Ctx) {
 					continue
 				}
 				stores := map[int]ssa.Value{}
+				copiedFromOwned := false
 				for _, ref := range *al.Referrers() {
+					// whole-struct copy `x := *opts`: every field is the caller's
+					if s2, ok := ref.(*ssa.Store); ok && s2.Addr == al {
+						if ld, ok := s2.Val.(*ssa.UnOp); ok && ld.Op == token.MUL && ownsValue(ld.X, ent) {
+							copiedFromOwned = true
+						}
+					}
 					if fa, ok := ref.(*ssa.FieldAddr); ok {
 						for _, r2 := range *fa.Referrers() {
 							if s2, ok := r2.(*ssa.Store); ok && s2.Addr == fa {
@@ -555,12 +562,12 @@ func runC01(c *Ctx) {
 				}
 				construct := name + ":" + typeShort(al.Type().(*types.Pointer).Elem())
 				pv := stores[pidx]
-				okPool := pv != nil && c.poolFromCaller(sl, pv, ent, isCLI, poolBuilders)
+				okPool := (pv == nil && copiedFromOwned) || (pv != nil && c.poolFromCaller(sl, pv, ent, isCLI, poolBuilders))
 				c.S.Check(okPool, "R3b", construct+".roots", c.pos(al.Pos()), "roots of trust forwarded from the caller", "options built here do not carry the caller's roots of trust")
 				for i := 0; i < st.NumFields(); i++ {
 					if st.Field(i).Name() == "Now" && namedIs(st.Field(i).Type(), "time", "Time") {
 						tv := stores[i]
-						okT := tv != nil && c.timeFromCaller(sl, tv, ent, isCLI)
+						okT := (tv == nil && copiedFromOwned) || (tv != nil && c.timeFromCaller(sl, tv, ent, isCLI))
 						c.S.Check(okT, "R3b", construct+".time", c.pos(al.Pos()), "verification time forwarded from the caller", "options built here do not carry the caller's verification time (zero time or wall clock)")
 					}
 				}
